@@ -89,8 +89,31 @@ func nilElementBreaks(pk *packages.Package) (loops int, bad []*ast.IfStmt) {
 				if !isNilIdent(info, y) {
 					continue
 				}
-				// the element itself, or a member / accessor chain read off it (no other operands)
-				if chainOnDerived(info, x, derived) {
+				// the element itself, or a member / accessor chain read off it (no other operands) ...
+				if !chainOnDerived(info, x, derived) {
+					continue
+				}
+				// ... tested as a guard in front of the element's processing: a later statement of the body works
+				// on the element. (A body that is nothing but the test - "if any attempt has no error, done" - is a
+				// search, not a skipped element.)
+				processed := false
+				past := false
+				for _, later := range rs.Body.List {
+					if later == st {
+						past = true
+						continue
+					}
+					if !past {
+						continue
+					}
+					ast.Inspect(later, func(m ast.Node) bool {
+						if id, ok := m.(*ast.Ident); ok && derived[info.Uses[id]] {
+							processed = true
+						}
+						return !processed
+					})
+				}
+				if processed {
 					bad = append(bad, is)
 				}
 			}
